@@ -12,6 +12,35 @@ COMMON_NOTE = ("Trusted base: Lean 4.33 kernel; axioms ⊆ {propext, Classical.c
                "by exact-float inputs or bounded by a tolerance. ")
 
 CLAIMS = {
+    'C08': dict(
+        text="Theorems (Props/C08.lean, 29, unbounded, none partial): exact rational affine maps — `-T` is the two-sided inverse for det ≠ 0, "
+             "matrix product = sequential application; the TransformSequence loop as written (NaN mask, write-back) equals the row-wise fold "
+             "of its members, NaN rows untouched, rows independent, `-seq` (reversed, negated) is the inverse; telescoping: in any group of "
+             "transforms every chain of edges of the bridging graph (forward/inverted, any parallel edge, any route) composes to "
+             "frame(target)∘frame(source)⁻¹, instantiated with affine maps down to rows of points; the repaired via/avoid logic honours both "
+             "and a kernel-checked witness shows the code as written does not; NoPath errors are sound w.r.t. a sound-and-complete "
+             "enumerator of simple paths; the lru_cache of bridging_graph is coherent along every register/query history. Tie: fresh "
+             "TemplateRegistry instances with hidden exact dyadic frames — graph edges, find_bridging_path decision and transforms, "
+             "xform_brain / shortest_bridging_seq equal to the direct change of frame bit-exactly; NaN rows, input unmodified, -seq, cache histories.",
+        note="TPS/MLS landmark interpolation and float matrices are tolerance tests, not proofs; networkx shortest_path/all_simple_paths assumed "
+             "to meet their specification; CMTK/H5/elastix transforms not covered. Two open findings (via+avoid; long via names truncated).",
+        technique="Lean 4 proof (group telescoping, affine inverse, sequence fold) + exact dyadic correspondence",
+        ref="§5 C08"),
+    'C12': dict(
+        text="Every pruning function of the model is `subset t keep` for an explicit keep-set, so kept nodes' ids / coordinates / mutual parent "
+             "links are untouched by C10's subset theorem (restated). Theorems (Props/C12.lean, unbounded): one round of prune_twigs removes "
+             "exactly twigDelete = all-but-last nodes of terminal branches (leaf → next fork) with length ≤ size whose leaf is in the mask; "
+             "prune_at_depth keeps exactly the nodes with geodesic distance ≤ depth; longest_neurite keeps exactly the selected greedy "
+             "segments or their complement; Strahler index-set semantics for positive / negative / zero ints; connector relocation returns "
+             "the nearest surviving ancestor. Tie: navis' node table after prune_twigs (sizes equal to twig lengths, masks as ids/bool, "
+             "recursion depths), prune_by_strahler (ints, lists, ranges, slices, negatives; connector drop/relocate), prune_at_depth "
+             "(depth equal to a distance, any source), longest_neurite (n int/slice, inverse) diffed against the model on integer-length "
+             "forests; exact=True checked by cable accounting (exactly size removed per tip).",
+        note="exact=True and the greedy segment order under ties are decided by oracles only; the fixpoint theorem for recursive pruning and the "
+             "Strahler recurrence (fuel independence) are in progress. Six open findings (mask applied per node / chains under fastcore, "
+             "relocate KeyError, three crashes of exact=True).",
+        technique="Lean 4 keep-set definitions + subset theorem + exact differential correspondence incl. ties",
+        ref="§5 C12"),
     'C20': dict(
         text="Theorems (Props/C20.lean, 17, unbounded, none partial): for all connector tables, under PreUnique (one presynaptic neuron per "
              "connector id) the edge stream of the NeuronConnector model is a permutation of the relational join of pre- and postsynaptic "
